@@ -10,7 +10,7 @@ import time
 HERE = os.path.dirname(os.path.dirname(os.path.abspath(__file__)))
 
 
-def _round(rng):
+def _round(rng, slow=False):
     w = rng.randint(1, 8)
     n = rng.randint(w, 28)
     pat = rng.choice(["zero", "equal", "straggler", "reverse", "random"])
@@ -42,6 +42,15 @@ def _round(rng):
         d = rng.choice([0.8, 1.0])
         spec["units"] = [{"id": i, "dur": d, "raise": rng.random() < 0.15,
                           "payload": 0} for i in range(n)]
+    if slow or (spec["mode"] != "stop_early" and rng.random() < 0.05):
+        # one unit that runs for seconds while nothing else finishes: the
+        # consumer must simply wait for it
+        spec["pattern"] = "slow"
+        w = spec["workers"] = rng.randint(1, 2)
+        units = [{"id": i, "dur": 0.0, "raise": False, "payload": 0}
+                 for i in range(rng.randint(w + 1, 5))]
+        units[rng.randrange(len(units))]["dur"] = rng.choice([2.6, 3.4])
+        spec["units"], spec["mode"] = units, "scheduler"
     if spec["mode"] == "bursts":
         left, bursts = n, []
         while left > 0:
@@ -57,7 +66,7 @@ def plan(tier, seed):
     rng = random.Random(f"C17r-{seed}")
     nround = 48 if tier == "quick" else 1500
     per = 3 if tier == "quick" else 12
-    rounds = [_round(rng) for _ in range(nround)]
+    rounds = [_round(rng, slow=(i % 24 == 7)) for i in range(nround)]
     return [{"kind": "runner", "hashseed": 0, "rounds": rounds[i:i + per]}
             for i in range(0, nround, per)]
 
@@ -179,6 +188,13 @@ def work(job, scratch):
                         what=f"unit {d['got']} payload {d['extra']} != "
                              f"{u.get('payload', 0)}"))
                 ev("delivered_" + d["kind"])
+        if out.get("none_while_pending"):
+            res["violations"].append(dict(
+                wit, mech="as-completed-gave-up-while-units-pending",
+                what=f"as_completed() returned None "
+                     f"{out['none_while_pending']} time(s) although units "
+                     "were still pending (the scheduler would count a step "
+                     "without a completed move)"))
         if out.get("undone_after_stop"):
             res["violations"].append(dict(
                 wit, mech="unit-dropped-by-stop",
@@ -187,6 +203,8 @@ def work(job, scratch):
                      "still pending"))
         if spec["mode"] == "stop_early":
             ev("stop_with_backlog_rounds")
+        if spec["pattern"] == "slow":
+            ev("rounds_with_a_unit_of_seconds")
         for i in ids:
             if got.get(i, 0) != 1:
                 res["violations"].append(dict(
